@@ -10,3 +10,22 @@ let () = register "crypt" (fun toks ->
        | Some p -> print_endline ("ok " ^ hex_of_bytes p)
        | None -> print_endline "fail")
     | _ -> print_endline "?bad crypt line")
+
+(* data keys of sessions. logins: k:c,k:c,... (store key id : position of the login whose cookie the callback carried, "~" = none)
+   dekmint <logins>          prints the data-key ids in login order
+   dekswap <logins> <i> <j>  prints "ok" if the cookie of login i opens the stored value of login j, else "fail" *)
+let parse_logins (s : string) : (n * n option) list =
+  List.map (fun kc -> match String.split_on_char ':' kc with
+      | [k; c] -> (n_of_int (int_of_string k), (if c = "~" then None else Some (n_of_int (int_of_string c))))
+      | _ -> failwith ("login " ^ kc)) (if s = "-" then [] else String.split_on_char ',' s)
+
+let () = register "dekmint" (fun toks ->
+    match toks with
+    | [logins] -> print_endline (String.concat " " (List.map (fun d -> string_of_int (int_of_n d)) (entry_mint (parse_logins logins))))
+    | _ -> print_endline "?bad dekmint line")
+
+let () = register "dekswap" (fun toks ->
+    match toks with
+    | [logins; i; j] ->
+      print_endline (if entry_dekswap (parse_logins logins) (n_of_int (int_of_string i)) (n_of_int (int_of_string j)) then "ok" else "fail")
+    | _ -> print_endline "?bad dekswap line")
